@@ -16,7 +16,7 @@ import (
 // collection (set / hash / keyspace); the harness only records what happened - per call the cursor sent,
 // the cursor returned and the elements returned - and TLC (Trace_Scan) judges the guarantee.
 
-func elemName(e int64) string { return fmt.Sprintf("e%d", e) }
+func elemNameDefault(e int64) string { return fmt.Sprintf("e%d", e) }
 
 func admitted(pattern string, name string) bool {
 	switch {
@@ -48,6 +48,33 @@ func (w *worker) runScan(cs J) J {
 	kind := jStr(cs["kind"])
 	pattern := jStr(cs["match"])
 	n := jInt(cs["n"])
+	// element names: e<i>, or the names chosen by the dict steering (names[i-1])
+	var names []string
+	for _, x := range jList(cs["names"]) {
+		names = append(names, jStr(x))
+	}
+	byName := map[string]int64{}
+	for i, nm := range names {
+		byName[nm] = int64(i + 1)
+	}
+	elemName := func(e int64) string {
+		if int(e) <= len(names) {
+			return names[e-1]
+		}
+		return elemNameDefault(e)
+	}
+	elemOf := func(name string) (int64, bool) {
+		if v, ok := byName[name]; ok {
+			return v, true
+		}
+		if len(names) > 0 || !strings.HasPrefix(name, "e") {
+			return 0, false
+		}
+		v, err := strconv.ParseInt(strings.TrimPrefix(name, "e"), 10, 64)
+		return v, err == nil
+	}
+	// how a key is removed in keyspace histories: DEL, UNLINK, or a deadline in the past
+	delmode := jStr(cs["delmode"])
 	var events []any
 	cursor := "0"
 	iterating := false
@@ -104,8 +131,8 @@ func (w *worker) runScan(cs J) J {
 		}
 		for i := 0; i+stepw-1 < len(el); i += stepw {
 			name := string(el[i].Str)
-			v, perr := strconv.ParseInt(strings.TrimPrefix(name, "e"), 10, 64)
-			if perr != nil || !strings.HasPrefix(name, "e") {
+			v, known := elemOf(name)
+			if !known {
 				return false, fmt.Sprintf("%v: returned an element that was never added: %q", args, name)
 			}
 			if kind == "hash" && string(el[i+1].Str) != "v"+name {
@@ -119,6 +146,24 @@ func (w *worker) runScan(cs J) J {
 		iterating = cout != 0
 		calls++
 		return true, ""
+	}
+	// initial elements (not part of the judged history: they are there before the first call)
+	for _, x := range jList(cs["init"]) {
+		e := jInt(x)
+		var r *Reply
+		var err error
+		switch kind {
+		case "set":
+			r, err = cn.DoS("SADD", "S", elemName(e))
+		case "hash":
+			r, err = cn.DoS("HSET", "S", elemName(e), "v"+elemName(e))
+		default:
+			r, err = cn.DoS("SET", elemName(e), "v")
+		}
+		if err != nil || r.Kind == '-' {
+			return fail(fmt.Sprintf("initial element %d: %v %v", e, r, err))
+		}
+		events = append(events, J{"op": "add", "e": e})
 	}
 	for _, p := range jList(cs["prog"]) {
 		st := p.(J)
@@ -146,7 +191,14 @@ func (w *worker) runScan(cs J) J {
 			case "hash":
 				r, err = cn.DoS("HDEL", "S", elemName(e))
 			default:
-				r, err = cn.DoS("DEL", elemName(e))
+				switch delmode {
+				case "unlink":
+					r, err = cn.DoS("UNLINK", elemName(e))
+				case "expire":
+					r, err = cn.DoS("PEXPIREAT", elemName(e), "1")
+				default:
+					r, err = cn.DoS("DEL", elemName(e))
+				}
 			}
 			events = append(events, J{"op": "del", "e": e})
 		case "step":
